@@ -22,14 +22,15 @@ fn describe(sc: &SessionConfig, probes: &[(u16, u8)]) -> String {
     format!("four={} fams={}", sc.four_octet_enabled() as u8, parts.join(","))
 }
 
-pub fn peer_up(local: &[u8], peer: &[u8], legacy: bool) -> Vec<u8> {
+pub fn peer_up(local: &[u8], peer: &[u8], legacy: bool, other_flags: u8) -> Vec<u8> {
     let total = 6 + 42 + 20 + local.len() + peer.len();
     let mut v = vec![3u8];
     v.extend_from_slice(&(total as u32).to_be_bytes());
     v.push(3);
     // per peer header
     v.push(0);
-    v.push(if legacy { 0x20 } else { 0 });
+    // the A flag (legacy AS_PATH format) next to every combination of the V, L and O flags, which say nothing about the AS width
+    v.push((if legacy { 0x20 } else { 0 }) | other_flags);
     v.extend_from_slice(&[0u8; 8]);
     v.extend_from_slice(&[0u8; 12]); v.extend_from_slice(&[10, 0, 0, 1]);
     v.extend_from_slice(&65000u32.to_be_bytes());
@@ -76,7 +77,8 @@ pub fn run(args: &[String]) {
         writeln!(out, "C12 {id} helper {h}").unwrap();
         // BMP path
         let bmp = guard(|| {
-            let bytes = peer_up(&local, &peer, legacy);
+            let other = [0x00u8, 0x80, 0x40, 0xc0, 0x10, 0x90, 0x50, 0xd0][id.parse::<usize>().unwrap_or(0) % 8];
+            let bytes = peer_up(&local, &peer, legacy, other);
             let m = BmpMsg::from_octets(bytes).map_err(|_| ())?;
             if let BmpMsg::PeerUpNotification(pu) = m {
                 let sc = pu.session_config();
